@@ -5048,6 +5048,17 @@ class DfaCompileCtx:
         if not ProgramData.do(ProgramFlag.REMOVE_INACCESIBLE_STATES):
             return 0
         accessible = set(self.dfa.dfs())
+        # start actions can redirect too (the out-of-space target of an append that runs in _start)
+        pending = [tgt for action in self.start_actions for sub in action.all_subactions() for tgt in sub.get_target_override_targets()]
+        while pending:
+            state = pending.pop()
+            if state is None or state in accessible:
+                continue
+            accessible.add(state)
+            for t in state.all_transitions():
+                pending.append(t.target)
+                for action in t.actions:
+                    pending.extend(action.get_target_override_targets())
         mod = 0
         for i in self.dfa.states.copy():
             if i not in accessible:
